@@ -34,6 +34,26 @@ def find_integer_basis(G, Gp, rng_=3, tol=1e-6):
     return None
 
 
+_IDX = np.array([t for t in itertools.product(range(-4, 5), repeat=3) if any(t)])
+
+
+def successive_minima(A):
+    """greedy shortest non-collinear / non-coplanar lattice vectors (coefficients in -4..4): the lengths are unique
+    whatever the tie-breaking (matroid greedy), so their squared sum is a well-defined expectation"""
+    lens = np.linalg.norm(_IDX.dot(A.T), axis=1)
+    chosen = []
+    for o in np.argsort(lens, kind='stable'):
+        cand = chosen + [_IDX[o]]
+        M = np.array(cand).dot(A.T)
+        sv = np.linalg.svd(M, compute_uv=False)
+        if sv[-1] > 1e-6 * sv[0]:
+            chosen = cand
+        if len(chosen) == 3:
+            break
+    chosen = np.array(chosen)
+    return chosen, np.linalg.norm(chosen.dot(A.T), axis=1)
+
+
 def bounded_reduce(module):
     mod = importlib.import_module('xfab.' + module)
     cell_t = Cell()
@@ -48,9 +68,10 @@ def bounded_reduce(module):
             if 1 - ca * ca - cb * cb - cg * cg + 2 * ca * cb * cg > 0.3:
                 break
         G0, A0 = metric(mod, c)
-        if rng.random() < 0.5:
+        if rng.random() < 0.6:
+            w = rng.choice([1, 1, 2])
             while True:
-                N = np.array([[rng.randint(-1, 1) for _ in range(3)] for _ in range(3)])
+                N = np.array([[rng.randint(-w, w) for _ in range(3)] for _ in range(3)])
                 if abs(round(np.linalg.det(N))) == 1:
                     break
             A1 = A0.dot(N)
@@ -58,26 +79,39 @@ def bounded_reduce(module):
         else:
             cell = c
         G, A = metric(mod, cell)
+        if rng.random() < 0.15:
+            # the result must not depend on earlier calls (e.g. with another search range)
+            mod.reduce_cell(c, uvw=rng.choice([2, 4]))
         red = [float(x) for x in mod.reduce_cell(cell)]
         if any(x != x for x in red):
             return {'cell': list(map(float, cell)), 'returned': red, 'problem': 'NaN in the reduced cell', 'row_column_signature': False}
         Gp, Ap = metric(mod, red)
         vol, volp = abs(np.linalg.det(A)), abs(np.linalg.det(Ap))
+        # 'built from the shortest non-coplanar lattice vectors within the search range': a^2+b^2+c^2 of the result is the
+        # squared sum of the successive minima (this holds whether the vectors are stored as rows or as columns, so it is
+        # decidable independently of the open row/column finding)
+        coef, lens = successive_minima(A)
+        gaps = np.diff(np.sort(np.linalg.norm(_IDX.dot(A.T), axis=1)))
+        if np.abs(coef).max() > 2:
+            return None          # outside the stated domain: the reduced basis is not within the default search range
+        if True:
+            want = float((lens ** 2).sum())
+            if abs(np.trace(Gp) - want) > 1e-6 * want:
+                return {'cell': list(map(float, cell)), 'returned': red, 'problem': 'a^2+b^2+c^2 of the result is not the squared sum of '
+                        'the three shortest non-coplanar lattice vectors', 'trace_returned': float(np.trace(Gp)), 'trace_expected': want,
+                        'minima_coefficients': coef.tolist(), 'row_column_signature': False, 'volume': float(vol), 'volume_returned': float(volp)}
         N = find_integer_basis(G, Gp)
         ok = N is not None and abs(round(np.linalg.det(N))) == 1 and abs(vol - volp) <= 1e-6 * vol
         if not ok:
             # signature of the known defect: the returned metric is (A N)(A N)' for an integer N, i.e. the reduced basis
             # vectors were stored as rows and then read as columns
             sig = False
-            for cols in itertools.permutations([np.array(v) for v in itertools.product(range(-3, 3), repeat=3) if any(v)][:0], 3):
-                pass
-            vecs = [np.array(v) for v in itertools.product(range(-3, 3), repeat=3) if any(v)]
-            byn = sorted(vecs, key=lambda v: v.dot(G).dot(v))[:40]
-            for v0, v1, v2 in itertools.permutations(byn[:14], 3):
-                Nn = np.array([v0, v1, v2]).T
-                M = A.dot(Nn)
-                if np.abs(M.dot(M.T) - Gp).max() <= 1e-6 * (1 + np.abs(Gp).max()) and abs(round(np.linalg.det(Nn))) >= 1:
-                    sig = True
+            all_lens = np.linalg.norm(_IDX.dot(A.T), axis=1)
+            cands = [[_IDX[k] for k in np.nonzero(np.abs(all_lens - L_) <= 1e-6 * L_)[0]] for L_ in lens]
+            for combo in itertools.islice(itertools.product(*cands), 4000):
+                V = np.array(combo).dot(A.T)              # rows: three shortest non-coplanar lattice vectors (Cartesian)
+                if abs(np.linalg.det(V)) > 1e-9 and np.abs(V.T.dot(V) - Gp).max() <= 1e-6 * (1 + np.abs(Gp).max()):
+                    sig = True                            # the metric of the COLUMNS of a matrix whose ROWS are those vectors
                     break
             return {'cell': list(map(float, cell)), 'returned': red, 'volume': float(vol), 'volume_returned': float(volp),
                     'integer_basis_found': N is not None, 'row_column_signature': sig,
@@ -85,11 +119,75 @@ def bounded_reduce(module):
     return f
 
 
+_HISTORY_SCRIPT = r'''
+import json, sys
+import numpy as np
+mod = __import__('xfab.' + sys.argv[1], fromlist=['x'])
+job = json.loads(sys.stdin.read())
+for first in job['first']:
+    mod.reduce_cell(first[0], uvw=first[1])
+print(json.dumps([[float(x) for x in mod.reduce_cell(c)] for c in job['cells']]))
+'''
+
+
+class HistoryUnit(Rn.Unit):
+    """reduce_cell(cell) must not depend on what was called before in the same process: the same default calls are made
+    in fresh interpreters after different first calls (none / uvw=2 / uvw=4) and must give identical results"""
+    kind = 'bounded'
+
+    def __init__(self, module):
+        self.module = module
+
+    def label(self):
+        return 'bounded.%s.reduce_cell_history_independent' % self.module
+
+    def run(self, tier, seed):
+        import json
+        import os
+        import random
+        import subprocess
+        import sys
+        mod = importlib.import_module('xfab.' + self.module)
+        rng = random.Random(seed)
+        cells = []
+        want = 30 if tier == 'quick' else 300
+        while len(cells) < want:
+            c = [rng.uniform(3, 8) for _ in range(3)] + [rng.uniform(75, 105) for _ in range(3)]
+            G0, A0 = metric(mod, c)
+            N = np.array([[rng.randint(-2, 2) for _ in range(3)] for _ in range(3)])
+            if abs(round(np.linalg.det(N))) != 1:
+                continue
+            cell = [float(x) for x in mod.a_to_cell(A0.dot(N))]
+            coef, lens = successive_minima(metric(mod, cell)[1])
+            if np.abs(coef).max() == 2 or rng.random() < 0.1:
+                cells.append(cell)
+        outs = {}
+        for nm, first in (('none', []), ('uvw=2', [[[4.0, 5.0, 6.0, 90.0, 90.0, 90.0], 2]]), ('uvw=4', [[[4.0, 5.0, 6.0, 90.0, 90.0, 90.0], 4]])):
+            r = subprocess.run([sys.executable, '-W', 'ignore', '-c', _HISTORY_SCRIPT, self.module], input=json.dumps({'first': first, 'cells': cells}),
+                               capture_output=True, text=True, env=dict(os.environ), timeout=600)
+            if r.returncode != 0:
+                raise RuntimeError('history subprocess failed: ' + r.stderr[-400:])
+            outs[nm] = json.loads(r.stdout.strip().splitlines()[-1])
+        fails = []
+        for i, c in enumerate(cells):
+            for nm in ('uvw=2', 'uvw=4'):
+                a, b = np.array(outs['none'][i]), np.array(outs[nm][i])
+                if not np.allclose(a, b, rtol=1e-9, atol=1e-9, equal_nan=True):
+                    fails.append({'cell': c, 'first_call_in_process': nm, 'returned': b.tolist(), 'returned_in_fresh_process': a.tolist(),
+                                  'problem': 'reduce_cell(cell) depends on an earlier call', 'row_column_signature': False})
+                    break
+        return {'unit': self.label(), 'functions': [], 'obligations': [], 'notes': [], 'validation': None, 'native': None,
+                'bounded': {'name': self.label()[8:], 'samples': 3 * len(cells), 'failures': fails[:20],
+                            'what': 'reduce_cell(cell) with the default range gives the same result in a fresh interpreter whether or not a call '
+                                    'with uvw=2 or uvw=4 came first (%d cells whose reduced basis needs a coefficient of 2)' % len(cells)}}
+
+
 def units(tier):
-    return [BoundedUnit('%s.reduce_cell_same_lattice' % m, bounded_reduce(m), 60, 2000,
-                        'reduce_cell(cell): same volume and metric N\'GN with integer unimodular N (entries within +-3), for random cells '
-                        'with reduced basis inside the default search range, half of them re-based by a random unimodular matrix')
-            for m in ('tools', 'laue')]
+    return [BoundedUnit('%s.reduce_cell_same_lattice' % m, bounded_reduce(m), 600, 4000,
+                        'reduce_cell(cell): same volume and metric N\'GN with integer unimodular N (entries within +-3), and a^2+b^2+c^2 == squared sum '
+                        'of the successive minima; random cells with reduced basis inside the default search range (|coefficients| <= 2), 60% re-based by a '
+                        'random unimodular matrix with entries up to +-2; 15% of the calls preceded by a call with another uvw (history independence)')
+            for m in ('tools', 'laue')] + [HistoryUnit(m) for m in ('tools', 'laue')]
 
 
 def main(tier, seed, write_baseline=False):
